@@ -312,6 +312,11 @@ var malformed = []string{"nop", "write", "write 0", "write 0g", "write AB", "wri
 	"rewrite x 00", "memprobe", "memprobe x", "memprobe 1 2", "len 1", "cap 1", "newb", "newb 00", "news", "news x", "new 1", "write x1", "write x1:2:3", "write x1:2000000"}
 
 func genCase(r *rng.R, tier string, i int) corr.Case {
+	if tier != "quick" && i == 0 {
+		// contents above 4 MiB, observed through String/Bytes/Read/WriteTo (too slow in the oracle for the quick tier: ~9 s)
+		return corr.Case{Tag: "large-contents", Lines: []string{"new", "write x1:1000000", "write x2:1000000", "write x3:1000000", "write x4:1000000",
+			"write x5:1000000", "string", "bytes", "read 3", "unreadbyte", "len", "writeto short 4500000", "string", "writeto all", "len"}}
+	}
 	g := &gen{r: r, sh: &session{}}
 	class := []string{"mixed", "mixed", "mixed", "mixed", "utf8", "utf8", "growth", "growth", "io", "hazard", "rewrite", "invalid", "malformed"}[r.Intn(13)]
 	maxOps := 60
